@@ -395,6 +395,10 @@ def run(ctx):
     _d4(ctx)
     _d5(ctx)
     _d6(ctx, roles, offs)
+    # a failed append must not leave a torn record in the file (append / journal / rollback discipline shared with C06)
+    from . import c06
+    from .common import RemapCtx
+    c06.run(RemapCtx(ctx, {'C06-D1': 'C05-D4', 'C06-D2': 'C05-D4', 'C06-D3': 'C05-D4', 'C06-D4': 'C05-D4'}))
 
 
 # ====================================================================== D1
@@ -1970,8 +1974,13 @@ def _d6(ctx, roles, offsets):
                'payload offset', rv.loc())
         return
     ms = [c for c in _mcalls(rv.node, 'set_length_and_maybe_checksums') if c.args and U.is_self_attr(c.args[0], '_response_record')]
-    ms += [c for c in U.calls(rv.node) if isinstance(c.func, ast.Attribute) and c.func.attr in ('compute_checksum', 'set_content_length')
+    ms += [c for c in U.calls(rv.node) if isinstance(c.func, ast.Attribute) and c.func.attr in ('compute_checksum',)
            and U.is_self_attr(c.func.value, '_response_record')]
+    weak = [c for c in U.calls(rv.node) if isinstance(c.func, ast.Attribute) and c.func.attr == 'set_content_length'
+            and U.is_self_attr(c.func.value, '_response_record')]
+    for c in weak:
+        ck.bad('C05-D6', rv.qual, norm_text(c), 'after the cut only the length is re-measured: WARC-Block-Digest still describes the '
+               'untruncated block (use the recorder\'s set_length_and_maybe_checksums)', rv.loc(c))
     mids = {n.id for m in ms for n in g.nodes(m)}
     for c in cuts:
         for n in g.nodes(c):
